@@ -157,11 +157,7 @@ Proof. intros S H v t u La Lx. eapply H; eauto. Qed.
 
 (* thaw of a solution that extends the context is the solution *)
 Lemma thaw_ext c a : sub_sol c a -> thaw c a = a.
-Proof.
-  intros S. destruct a as [|p r]; [|reflexivity]. cbn.
-  destruct c as [|[v t] c']; [reflexivity|].
-  specialize (S v t). cbn in S. rewrite N.eqb_refl in S. specialize (S eq_refl). discriminate.
-Qed.
+Proof. reflexivity. Qed.
 
 (* boolean helpers *)
 Lemma if_compat_ext {A} (a b a' b' : sol) (x y : list A) :
